@@ -25,10 +25,14 @@ if os.path.isdir(wt) and '--skip-confirm' not in sys.argv:
     rc, out = sh(PYTEST, wt); report['pytest_patched'] = out.strip().splitlines()[-1]
     sh('git checkout -- .', wt)
     print('confirm: demo clean rc=%s patched rc=%s; pytest: %s' % (report['demo_clean'], report['demo_patched'], report['pytest_patched']))
-rc, out = sh('git -C /repo apply --3way ' + patch)
+alt = os.path.join('/verif/seeded', '%s-%s' % (prop, which), 'patch.diff')
+rc, out = sh('git -C /repo apply ' + patch)
+if rc != 0 and os.path.exists(alt):
+    patch_used = alt        # a copy ported by hand to the current tree
+    rc, out = sh('git -C /repo apply ' + alt)
 if rc != 0:
-    rc, out = sh('git -C /repo apply ' + patch)
-assert rc == 0, 'patch does not apply to /repo: ' + out
+    sh('git -C /repo reset -q && git -C /repo checkout -- .')
+    sys.exit('patch does not apply to /repo (port it by hand into %s): %s' % (alt, out))
 results = {}
 try:
     for check in checks.split(','):
@@ -44,7 +48,11 @@ finally:
     sh('rm -rf /verif/replays/*/[!f]*-????????.json')
 if '--keep' in sys.argv:
     dst = '/verif/seeded/%s-%s' % (prop, which); os.makedirs(dst, exist_ok=True)
-    shutil.copy(patch, os.path.join(dst, 'patch.diff')); shutil.copy(os.path.join(wt, demo), os.path.join(dst, 'demo.py'))
+    if not os.path.exists(os.path.join(dst, 'patch.diff')) or open(os.path.join(dst, 'patch.diff')).read() == open(patch).read() or True:
+        pass
+    if not (os.path.exists(alt) and rc == 0 and 'patch_used' in globals()):
+        shutil.copy(patch, os.path.join(dst, 'patch.diff'))
+    shutil.copy(os.path.join(wt, demo), os.path.join(dst, 'demo.py'))
     meta = json.load(open(os.path.join(seed, 'meta.json')))
     ch = [c for c in meta['changes'] if c['name'] == which][0]
     prev = {}
